@@ -330,18 +330,199 @@ def instantiates(ctx):
         shutil.rmtree(d, ignore_errors=True)
 
 
+# ------------------------------------------------------------------------------------------------ obligation groups
+
+CFG = dict(none=0, only=1, head=2, second_tail=3, second_mid=4, tail=5, mid=6, empty=7, nonempty=8, peek=9)
+ITEM_CFGS = ['only', 'head', 'second_tail', 'second_mid', 'tail', 'mid']
+NEW_CFGS = ['empty', 'nonempty']
+TAIL_CFGS = ['only', 'second_tail', 'tail']
+
+# op -> [(configurations, callees of the map stub that are replaced by their abstract contract)]
+SET_LOCAL = [
+    ('Item_ctor', [(['none'], [])]),
+    ('ctor', [(['none'], ['umap_ctor'])]),
+    ('unlink_item', [(ITEM_CFGS, [])]),
+    ('link_item', [(NEW_CFGS, [])]),
+    ('after_emplace', [(ITEM_CFGS + NEW_CFGS, [])]),
+    ('insert', [(ITEM_CFGS + NEW_CFGS, ['umap_emplace_fn'])]),
+    ('emplace', [(ITEM_CFGS + NEW_CFGS, ['umap_emplace_fn'])]),
+    ('erase', [(['none'] + ITEM_CFGS, ['umap_find', 'umap_erase_it'])]),
+    ('clear', [(['none'], ['umap_clear'])]),
+    ('change_size', [(['none', 'mid'], ['umap_at'])]),
+    ('touch', [(['none'] + ITEM_CFGS, ['umap_at'])]),
+    ('size', [(['none'], [])]),
+    ('count', [(['none'], ['umap_size'])]),
+    ('evict_object', [(['empty'] + TAIL_CFGS, ['umap_erase_key'])]),
+    ('peek', [(['empty', 'peek'], [])]),
+    ('swap', [(['none'], ['umap_swap'])]),
+]
+MAP_LOCAL = [
+    ('Item_ctor_copy', [(['none'], [])]),
+    ('Item_ctor_move', [(['none'], [])]),
+    ('ctor', [(['none'], ['umap_ctor'])]),
+    ('unlink_item', [(ITEM_CFGS, [])]),
+    ('link_item', [(NEW_CFGS, [])]),
+    ('touch_item', [(ITEM_CFGS, [])]),
+    ('change_item_size', [(['none'], [])]),
+    ('at', [(['none'] + ITEM_CFGS, ['umap_at'])]),
+    ('at_const', [(['none'] + ITEM_CFGS, ['umap_at'])]),
+    ('item_size', [(['none', 'mid'], ['umap_at'])]),
+    ('insert', [(ITEM_CFGS, ['umap_find', 'umap_emplace_fn']), (NEW_CFGS, ['umap_find', 'umap_emplace_fn'])]),
+    ('insert_const', [(ITEM_CFGS + NEW_CFGS, ['umap_find', 'umap_emplace_fn'])]),
+    ('emplace', [(['mid'] + NEW_CFGS, ['umap_emplace_fn'])]),
+    ('erase', [(['none'] + ITEM_CFGS, ['umap_find', 'umap_erase_it'])]),
+    ('clear', [(['none'], ['umap_clear'])]),
+    ('change_size', [(['none'] + ITEM_CFGS, ['umap_at'])]),
+    ('touch', [(['none'] + ITEM_CFGS, ['umap_at'])]),
+    ('size', [(['none'], [])]),
+    ('count', [(['none'], ['umap_size'])]),
+    ('empty', [(['none'], ['umap_empty'])]),
+    ('evict_object', [(['empty'] + TAIL_CFGS, ['umap_erase_key'])]),
+    ('swap', [(['none'], ['umap_swap'])]),
+]
+CXX = {'Item_ctor': 'Item::Item(size_t)', 'Item_ctor_copy': 'Item::Item(const ValueT&, size_t)', 'Item_ctor_move': 'Item::Item(ValueT&&, size_t)',
+       'ctor': '{C}()', 'at_const': 'at(const KeyT&) const', 'insert_const': 'insert(const KeyT&, const ValueT&, size_t)',
+       'insert': 'insert', 'emplace': 'emplace'}
+NOTE = {
+    'unlink_item': 'P.next == N, N.prev == P, head/tail step over i, i detached; assigns exactly {head, tail, i.prev, i.next, P.next, N.prev}',
+    'link_item': 'i.next == H, H.prev == i, head == i, tail == i iff the list was empty; assigns exactly {head, tail, i.next, H.prev}',
+    'touch_item': 'i moved to the front (nothing written when it is the head); frame = the neighbourhood',
+}
+
+
+def local_groups(cont, table, skip, extra_defs, driver):
+    gs = []
+    for op, rows in table:
+        if op in skip:
+            continue
+        for cfgs, repl in rows:
+            for cfg in cfgs:
+                d = ['C12_ABSTRACT=1', 'CFG=%d' % CFG[cfg]] + extra_defs
+                # the local groups have no heap to replay; the size arithmetic of "insert/emplace on an existing key" has
+                rp = (Replay(driver=driver, mode='local_insert_existing', extra=[cont], sources=[])
+                      if op in ('after_emplace', 'insert', 'emplace') and cont == 'LRUSet' and cfg in ITEM_CFGS else None)
+                gs.append(Group(name='%s.%s[%s]' % (cont, op, cfg), harness=H_LOCAL, entry='h_' + op,
+                                function='%s::%s' % (cont, CXX.get(op, op).replace('{C}', cont)), enforce='%s_%s' % (cont, op),
+                                replace=list(repl), defines=d, kind='loop-free', object_bits=12, timeout=180, stage1=20, replay=rp,
+                                clause_note=NOTE.get(op, 'contracts/C12_ops.h: local specification of the operation for the alias configuration "%s" '
+                                                     'of the neighbourhood of the item concerned' % cfg)))
+    return gs
+
+
+def shapes(nmax):
+    """every list shape with <= nmax entries over nmax pool nodes: which nodes are live and in which recency order (MRU first)"""
+    out = []
+    for n in range(nmax + 1):
+        out += list(itertools.permutations(range(nmax), n))
+    return out
+
+
+SET_OPS = ['insert', 'emplace', 'erase', 'clear', 'change_size', 'touch', 'evict_object', 'peek', 'observe', 'swap_self']
+MAP_OPS = ['insert', 'insert_const', 'emplace', 'erase', 'clear', 'change_size', 'touch', 'evict_object', 'observe', 'swap_self',
+           'at', 'at_const', 'item_size']
+REPLAY_INPUTS = 'in_key in_size in_val in_total in_k in_v in_sz in_nsz in_touch in_hit'
+
+
+def shape_groups(cont, ops, skip, nmax, tier, extra_defs, driver):
+    gs = []
+    sh = shapes(nmax)
+    ns = nmax + 1
+    base = ['C12_NSLOT=%d' % ns] + extra_defs
+    unw = ['--unwind', str(ns + 2), '--unwinding-assertions']
+    bound = ('list shape fixed: %%d entries in nodes (%%s) of a pool of %d nodes (<= %d entries%s); symbolic keys, values, sizes, total and arguments; '
+             'one step from an arbitrary state of that shape' % (ns, nmax, '' if tier == 'quick' else ', thorough tier'))
+
+    def sdef(tag, s):
+        return ['CNT_%s=%d' % (tag, len(s)), 'SHAPE_%s={%s}' % (tag, ','.join(map(str, s + (-1,))))]
+
+    def G(name, op, a, b=None):
+        d = base + sdef('A', a) + (sdef('B', b) if b is not None else []) + ['OP=OP_' + op]
+        extra = [cont, str(ns), ','.join(map(str, a)) or '-', (','.join(map(str, b)) or '-') if b is not None else '-']
+        return Group(name=name, harness=H_SHAPES, entry='h_step', function='%s::%s' % (cont, CXX.get(op, op).replace('{C}', cont)),
+                     defines=d, kind='bounded', bound=bound % (len(a), ','.join(map(str, a))), cbmc_flags=unw, tier=tier,
+                     timeout=300, stage1=25, min_post=3, first='cadical',      # minisat has pathological runs here (99 s on 1.8k clauses)
+                     clause_note='harness/C12/shapes.c: representation invariant + refinement of the reference recency list',
+                     replay=Replay(driver=driver, mode=op, extra=extra, sources=[]))
+
+    for i, a in enumerate(sh):
+        tag = ','.join(map(str, a)) or 'empty'
+        for op in ops:
+            if op in skip:
+                continue
+            gs.append(G('%s.%s{%d:%s}' % (cont, op, nmax, tag), op, a))
+        for b in sorted({(), sh[(i * 7 + 5) % len(sh)]}):
+            gs.append(G('%s.swap{%d:%s<->%s}' % (cont, nmax, tag, ','.join(map(str, b)) or 'empty'), 'swap', a, b))
+    gs.append(G('%s.ctor{%d}' % (cont, nmax), 'ctor', ()))
+    g = G('%s.reference_total{%d}' % (cont, nmax), 'observe', ())
+    g.entry, g.function, g.replay, g.min_post = 'h_model_total', 'reference recency list (harness/C12/shapes.c)', None, 2
+    g.first, g.bound = 'cvc5', 'reference lists of <= %d entries: the maintained total is the sum of the sizes after every model primitive' % nmax
+    gs.append(g)
+    return gs
+
+
+def gate_group(member, key, ok, diag):
+    text = re.sub(r'[^A-Za-z0-9 _.:,()<>=&*-]', ' ', '; '.join(diag))[:240] if diag else 'accepted'
+    return Group(name='LRUMap.%s.instantiates' % key, harness='harness/C12/gate.c', entry='h_gate', function='LRUMap::' + member,
+                 defines=['C12_GATE_OK=%d' % (1 if ok else 0), 'C12_GATE_DIAG="%s"' % text], kind='bounded',
+                 bound='compile gate, not a cbmc proof: g++ -std=c++20 -fsyntax-only `template class phosg::LRUMap<int,int>;` accepts the member'
+                       + ('' if ok else ' -- REJECTED: ' + '; '.join(diag)[:600]),
+                 clause_note='the member function can be instantiated at all', min_post=1,
+                 replay=Replay(driver='C12/instantiate.cc', mode=key, sources=[]))
+
+
 def plan(ctx):
     src = Source(ctx.src)
     errs = instantiates(ctx)
-    bad_insert = any('insert(const KeyT&, const ValueT&' in k for k in errs)
-    bad_at = any('at(const KeyT&) const' in k for k in errs)
-    other = {k: v for k, v in errs.items() if 'insert(const KeyT&, const ValueT&' not in k and 'at(const KeyT&) const' not in k}
+    K_INS, K_AT = 'insert(const KeyT&, const ValueT&', 'at(const KeyT&) const'
+    bad_insert = [v for k, v in errs.items() if K_INS in k]
+    bad_at = [v for k, v in errs.items() if K_AT in k]
+    other = {k: v for k, v in errs.items() if K_INS not in k and K_AT not in k}
     if other:
         raise ExtractionBreak('LRUSet<int> / LRUMap<int,int> do not instantiate: %r' % other)
-    set_units(ctx, src)
-    map_units(ctx, src, not bad_insert)
-    return []
+    ths, us = set_units(ctx, src)
+    thm, um, uc = map_units(ctx, src, not bad_insert)
+    ctx.functions_under_contract = us.functions + um.functions + (uc.functions if uc else [])
+    groups = [gate_group('insert(const KeyT&, const ValueT&, size_t)', 'insert_const', not bad_insert, sum(bad_insert, [])),
+              gate_group('at(const KeyT&) const', 'at_const', not bad_at, sum(bad_at, []))]
+    # members that g++ rejects have no meaning to verify: their groups are left out (the gate group above reports them)
+    skip = set()
+    if bad_insert:
+        skip.add('insert_const')
+    if bad_at:
+        skip.add('at_const')
+    mdefs = ['C12_USE_MAP=1'] + ([] if bad_insert else ['C12_INSERT_CONST=1'])
+    drv = 'C12/lru.cc' if (bad_insert or bad_at) else 'C12/lru_all.cc'
+    groups += local_groups('LRUSet', SET_LOCAL, skip, [], drv)
+    groups += local_groups('LRUMap', MAP_LOCAL, skip, mdefs, drv)
+    for nmax, tier in ((3, 'quick'), (4, 'thorough')):
+        if tier == 'thorough' and ctx.tier != 'thorough':
+            continue
+        groups += shape_groups('LRUSet', SET_OPS, skip, nmax, tier, [], drv)
+        groups += shape_groups('LRUMap', MAP_OPS, skip, nmax, tier, mdefs, drv)
+    return groups
 
 
 CLAIMED = True
-MANIFEST = dict(category='proof', text='', note='', technique='')
+MANIFEST = dict(
+    category='proof',
+    text=('LRUSet<int> and LRUMap<int,int> are cut from the headers on every run (templates instantiated textually, std::unordered_map replaced by a '
+          'stub). Unbounded part (counted): link_item / unlink_item / touch_item / change_item_size, both constructors and every public operation '
+          '(insert, emplace, erase, clear, change_size, touch, at, item_size, size, count, empty, evict_object, peek, swap) are enforced against local '
+          'separation-style contracts -- the exact rewiring of the neighbourhood {item, prev, next, head, tail}, the total_size arithmetic modulo 2^64, '
+          'the calls made on the map (exactly one erase of exactly the node of the key, emplace only for an absent key), the boolean result and the '
+          'out_of_range cases -- with one obligation group per alias configuration of the neighbourhood (only / head / second / interior / tail, list '
+          'empty or not) and assigns clauses as the frame (no other item, key pointer or value is written), for containers of any size. Bounded part '
+          '(reported separately, never counted): from every concrete list shape with <= 3 entries (quick; <= 4 thorough) with symbolic keys, values, '
+          'sizes and arguments, the constructor establishes and each operation preserves the representation invariant (acyclic chain == live nodes, '
+          'prev/next mirror, key pointers, total_size == sum, no dangling link, no erase of a dead node, no leaked node) and refines one step of a '
+          'reference recency list written from the property statement (return values, exceptions, size(), count(), empty(), evicted/peeked == least '
+          'recently used, swap of two instances incl. an empty one and itself). C++ type-checking of the two templates is a g++ -fsyntax-only gate.'),
+    note=('Trusted: cbmc/goto-instrument/solvers, the extractor, stubs/C12_umap.h (unordered_map model: stable node addresses, freed nodes poisoned, '
+          'erase of a dead node asserted), the contracts and the reference list. Histories are covered by one inductive step per shape (bounded part) '
+          'and by the local contracts plus the frame (unbounded part); containers larger than the shape bound rest on the local contracts and the '
+          'stated induction. K = V = int only; arguments by value; libstdc++ internals, copy construction of the containers and throwing key types are '
+          'not decided.'),
+    technique=('function contracts with is_fresh neighbourhoods and conditional assigns (goto-instrument --dfcc, callee map operations replaced by '
+               'ghost-driven contracts), one harness per alias configuration; shape-enumerated bounded refinement (cbmc --unwind, concrete shape, '
+               'symbolic data) labelled bounded'),
+)
